@@ -5,6 +5,7 @@ import conv
 import textmodel as TM
 
 COQ_IMPORTS = ['Model.Tokens', 'Model.Parser', 'Judge.C17_judge']
+PDA_FREE = True      # no PDA is involved: the recycling pass runs with GambaTools.pda_epsilon_closure_max_iterations = 3
 RULE = ('random DFAs / NFAs / PDAs / TMs (1-4 states, names from \\w+ incl. digits, underscores, non-ASCII letters and keyword-like names) rendered in random layouts (line order shuffled, optional declarations omitted when derivable, '
         'comment and blank lines, labels of a state pair split over several lines, extra spaces), and single-fault corruptions of renderings (dropped / duplicated / swapped line or token, undeclared state or symbol, second initial state, '
         'no initial state, duplicate declaration, incomplete transition, malformed label, non-deterministic or non-total DFA, duplicate TM transition). Observed: parse_dfa / parse_nfa / parse_pda / parse_tm (object or exception). '
@@ -187,14 +188,39 @@ def gen(rng, tier):
                 cases.append({'kind': kind, 'text': render(rng, kind, x), 'expect': None if kwlike else x})
             for _ in range(3):
                 cases.append({'kind': kind, 'text': corrupt(rng, render(rng, kind, x)), 'expect': None})
+    # the other state-label patterns (the rarely passed state_regex argument): pair labels, set labels, words or sets
+    for _ in range(40 if quick else 800):
+        mode = rng.choice(['product', 'set', 'wordset'])
+        x = random_obj(rng, 'dfa')
+        pool = {'product': ['(a,b)', '(q0,q1)', '(q1,q0)', '(x,x)', '(q10,q1)'], 'set': ['{}', '{q0}', '{q0,q1}', '{q1,q0}', '{a,b,c}', '{,}'],
+                'wordset': ['q0', '{q0}', '{q0,q1}', 'q1', '{}', 'A']}[mode]
+        rng.shuffle(pool)
+        m = dict(zip(x['Q'], pool))
+        y = {'Q': [m[q] for q in x['Q']], 'Sigma': x['Sigma'], 'delta': [[m[p_], a, m[q_]] for p_, a, q_ in x['delta']], 'q0': m[x['q0']], 'F': [m[q] for q in x['F']]}
+        text = render(rng, 'dfa', y)
+        cases.append({'kind': 'dfa', 'text': text, 'expect': y, 'regex': mode})
+        for _ in range(3):
+            t2 = corrupt(rng, text)
+            if rng.random() < 0.6:            # damage one state label: trailing / leading junk, a missing bracket
+                q = rng.choice(y['Q'])
+                bad = rng.choice([q + ';', q + '-', q[:-1], q + '}', q + ')', '-' + q, q + ',', q + q])
+                t2 = text.replace(q, bad, rng.choice([1, 1, 99]))
+            cases.append({'kind': 'dfa', 'text': t2, 'expect': None, 'regex': mode})
     return cases
 
 
-def parse_obs(kind, text, product=False):
+MODES = {None: 0, 'word': 0, 'product': 1, 'set': 2, 'wordset': 3}
+
+
+def parse_obs(kind, text, product=False, regex=None):
     from implutil import safe, ok
     if kind == 'dfa':
         from gambatools.dfa_algorithms import parse_dfa
-        from gambatools.automaton_algorithms import state_product_regex
+        from gambatools.automaton_algorithms import state_product_regex, state_set_regex, state_word_or_set_regex
+        if regex:
+            rx = {'product': state_product_regex, 'set': state_set_regex, 'wordset': state_word_or_set_regex}[regex]()
+            r = safe(parse_dfa, text, state_regex=rx)
+            return conv.dfa_case(r[1]) if ok(r) else None, None if ok(r) else r[1]
         r = safe(parse_dfa, text, state_regex=state_product_regex()) if product else safe(parse_dfa, text)
         return conv.dfa_case(r[1]) if ok(r) else None, None if ok(r) else r[1]
     if kind == 'nfa':
@@ -211,7 +237,7 @@ def parse_obs(kind, text, product=False):
 
 
 def observe(c):
-    res, err = parse_obs(c['kind'], c['text'], c.get('product', False))
+    res, err = parse_obs(c['kind'], c['text'], c.get('product', False), c.get('regex'))
     return {'res': res, 'err': err}
 
 
@@ -224,6 +250,8 @@ def encode(c, o):
     text = ch.text(c['text'])
     res = L.option(o['res'], lambda x: REC[k](ch, x))
     exp = L.option(c['expect'], lambda x: REC[k](ch, x))
+    if k == 'dfa' and c.get('regex'):
+        return 'judge_dfa_mode %s %s %s %d' % (text, res, exp, MODES[c['regex']])
     if k == 'dfa':
         return 'judge_dfa %s %s %s %s' % (text, res, exp, L.boolean(c.get('product', False)))
     return 'judge_%s %s %s %s' % (k, text, res, exp)
